@@ -280,6 +280,10 @@ def run_par(out, args, timeout=1800):
     start, restarts = 0, 0
     while True:
         p = run_bin("par", list(args) + ["--start", start, "--out", out], check=False, timeout=timeout)
+        m = re.search(r"SWEEP runs=(\d+) suspects=(\d+)", p.stderr or "")
+        if m:
+            SWEEP["runs"] += int(m.group(1))
+            SWEEP["suspects"] += int(m.group(2))
         if p.returncode == 0:
             return restarts
         if p.returncode != 3:
@@ -287,7 +291,11 @@ def run_par(out, args, timeout=1800):
             raise ToolError(f"engine par exited with {p.returncode}")
         restarts += 1
         with open(out) as f:
-            start = sum(1 for l in f if l.startswith('{"cfg"') or '"ev":"reset"' in l[:400])
+            last = None
+            for l in f:
+                if '"ev":"reset"' in l:
+                    last = l
+            start = json.loads(last)["run"] + 1 if last else 0      # (unwritten sweep runs leave gaps in the numbering)
         if restarts >= 25:
             # stuck runs are data (C04 verdicts of the scheduler, reported by TracePar): the rest of this batch is given up, not the check
             log(f"  engine par: {restarts} runs of this batch deadlocked / livelocked; batch cut short")
@@ -412,6 +420,8 @@ def par_check(pid, modes, seq_plan=None, rule_extra=""):
                 firsts = firsts or runs
             chk.cov["samples"].append({"sequential_run": sample_run(firsts)})
         chk.cov["rule"] = PAR_RULE + ("; plus " + SEQ_RULE if seq_plan else "") + rule_extra
+        if SWEEP["runs"]:
+            chk.cov["unlogged_sweep"] = dict(SWEEP, note="free-running parallel runs (2-6 threads) solved without being written out; the suspects (outcome differs from the engine's own optimum) are among the validated traces")
         chk.assumptions = PAR_ASSUME + (SEQ_ASSUME if seq_plan else [])
         mc_parts(chk, tier)
         if pid == "C04":
@@ -424,9 +434,9 @@ def par_check(pid, modes, seq_plan=None, rule_extra=""):
 FOCUS = ["--cfg", json.dumps({"dd": "lel", "cache": True, "fringe": "simple", "width": 1})]   # pop-time cache pruning (skipped_all branch of get_workload)
 FOCUS2 = ["--cfg", json.dumps({"cache": True, "fringe": "simple"})]
 CHECKS.update({
-    "C03": par_check("C03", [("sched", "allimpacted", 6, 120, 400, 6, 3), ("sched", "allimpacted", 7, 40, 150, 6, 4), ("free", "allimpacted", 7, 40, 150, 6, 16),
+    "C03": par_check("C03", [("sched", "allimpacted", 6, 120, 400, 6, 3), ("sched", "allimpacted", 7, 40, 150, 6, 4), ("free", "allimpacted", 7, 40, 150, 6, 16, "--sweep", 120),
                            ("sched", "reconv", 8, 150, 400, 3, 3) + tuple(FOCUS), ("sched", "reconv", 8, 100, 300, 3, 4) + tuple(FOCUS2)]),
-    "C04": par_check("C04", [("sched", "allimpacted", 6, 80, 300, 6, 4), ("threads", "allimpacted", 6, 60, 200, 6, 4), ("cutsweep", "allimpacted", 6, 25, 80, 3, 3), ("free", "allimpacted", 6, 30, 100, 6, 16),
+    "C04": par_check("C04", [("sched", "allimpacted", 6, 80, 300, 6, 4), ("threads", "allimpacted", 6, 60, 200, 6, 4), ("cutsweep", "allimpacted", 6, 25, 80, 3, 3), ("free", "allimpacted", 6, 30, 100, 6, 16, "--sweep", 60),
                             ("sched", "reconv", 8, 300, 800, 3, 3) + tuple(FOCUS), ("sched", "reconv", 8, 100, 300, 3, 4) + tuple(FOCUS2), ("free", "reconv", 8, 60, 200, 4, 8) + tuple(FOCUS)],
                      rule_extra="; thread counts changed after construction (with_nb_threads, both directions); cutoff raised at every step of recorded schedules"),
 })
